@@ -775,6 +775,12 @@ def corpus_specs() -> list[tuple[str, dict]]:
     s = mk('settings-cameras-cordons', cameras=[[[1.0, 2.0, 3.0], [4.0, 5.0, 6.0]], [[0.5, 0.25, 0.125], [0.0, 0.0, 0.0]]],
            cordons=[{'name': 'c "1"', 'mins': [0.0, 0.0, 0.0], 'maxs': [5.0, 5.0, 5.0], 'active': False}])
     s['settings'].update(cordon_enabled=True, active_cam=2, strata_inst_vis=2, quickhide_count=4, is_prefab=True)
+    # blend weights set, every other member of the optional group at its default (a presence guard on another member loses them)
+    d = U.gen_disp(rng, 0.0, 1)
+    d['multi'] = {'kind': 'alpha0', 'blend': [[1.0, 0.5, 0.0, 0.25]] * 9, 'alpha': [[0.0, 0.0, 0.0, 0.0]] * 9, 'colors': [None] * 9}
+    sd = U.gen_side_extra(rng, 0.0)
+    sd['disp'] = d
+    mk('multiblend-only-blend', brushes=[base_solid(sides=[sd] + [None] * 5)])
     return out
 
 
@@ -880,7 +886,7 @@ def search(ck: Ck) -> None:
 def run(ck: Ck) -> None:
     ck.rule = ('maps are generated as JSON specifications (entities with arbitrary keys/values incl. quotes, backslashes, newlines, '
                'unicode; outputs with both separators and instance forms; fixups; hidden entities/solids; brush entities; prisms and '
-               'arbitrary faces; displacements power 1-4 with per-vertex data, allowed_verts, multiblend in 4 variants; nested '
+               'arbitrary faces; displacements power 1-4 with per-vertex data, allowed_verts, multiblend in 6 variants (incl. all-zero blend and blend-only); nested '
                'visgroups; groups; membership sets built by add/discard histories; cameras; cordons; Strata viewports/points; options '
                'minimal/disp_multiblend/preserve_ids) and realised through the public API; a map is non-trivial when it has at least '
                'one entity, brush, visgroup, camera or cordon; distinct by full specification. Correspondence cases: strings over an '
